@@ -88,11 +88,20 @@ Theorem C12v2_closes_everything : forall (n : nat) (co mc mx mr mn : Z) (ops : l
 Proof. intros n co mc mx mr mn ops H _ Hq. apply linv_closes; [apply LInv_run, LInv_init, H|exact Hq]. Qed.
 Print Assumptions C12v2_closes_everything.
 
+(* a borrower that was parked on the condition in _wait_for_conn (LWait) and resumes after the pool was shut down -- by that
+   shutdown or by a stream freed meanwhile -- fails with "Pool is shutdown" and takes no stream: in every state with the flag
+   set, the rest of its loop iteration ends with LErrShutdown and leaves the state untouched *)
+Theorem C12v2_woken_borrower_fails : forall (n : nat) (co mc mx mr mn : Z) (ops : list lop) (fuel : nat),
+  let s := lrun (linit n co mc mx mr mn) ops in
+  lshut s = true -> lexec (lwait_loop (S fuel) LRet) s = (s, LErrShutdown).
+Proof. intros n co mc mx mr mn ops fuel s H. apply woken_after_shutdown, H. Qed.
+Print Assumptions C12v2_woken_borrower_fails.
+
 (* non-vacuous: a second connection is spawned, retired into the trash with a stream in flight, a third one is being opened
    while shutdown() runs: all three end up closed *)
 Example C12v2_nonvacuous :
   let ops := [LTake 0; LTake 0; LMaybeSpawn; LTaskCheck; LTaskConnect 0; LTaskAppend 0; LTaskDone; LTake 1; LTrash 1;
-              LMaybeSpawn; LTaskCheck; LTaskConnect 1; LShutdownFlag; LShutdownConns; LShutdownTrash; LTaskAppend 1; LTaskDone] in
+              LMaybeSpawn; LTaskCheck; LTaskConnect 1; LShutdownFlag; LShutdownSnap; LShutdownNext; LShutdownTrash; LTaskAppend 1; LTaskDone] in
   let s := lrun (linit 1 1 3 3 2 1) ops in
   lquiescent s = true /\ length (lconns s) = 3%nat /\ lall_closed s = true /\
   ltrash (lrun (linit 1 1 3 3 2 1) (firstn 9 ops)) = [1%nat].
